@@ -198,3 +198,126 @@ func In(r *common.Rand, sats uint64) txgen.InSpec {
 }
 
 func Repeat(b byte, n int) []byte { return bytes.Repeat([]byte{b}, n) }
+
+// ---------- compact Gallina printing (Coq ingests byte literals slowly; constant runs are cheap) ----------
+
+// CoqBytes prints runs of >= 6 equal bytes as `repeat_byte n xNN` and the rest as literals.
+func CoqBytes(b []byte) string {
+	if len(b) == 0 {
+		return "[]"
+	}
+	var parts []string
+	var lit []byte
+	flush := func() {
+		if len(lit) > 0 {
+			parts = append(parts, common.CoqBytes(lit))
+			lit = nil
+		}
+	}
+	i := 0
+	for i < len(b) {
+		j := i
+		for j < len(b) && b[j] == b[i] {
+			j++
+		}
+		if j-i >= 6 {
+			flush()
+			parts = append(parts, fmt.Sprintf("repeat_byte %d x%02x", j-i, b[i]))
+		} else {
+			lit = append(lit, b[i:j]...)
+		}
+		i = j
+	}
+	flush()
+	if len(parts) == 1 {
+		return "(" + parts[0] + ")"
+	}
+	s := "("
+	for k, p := range parts {
+		if k > 0 {
+			s += " ++ "
+		}
+		s += p
+	}
+	return s + ")"
+}
+
+func coqOptBytes(hexs string, isNil bool) string {
+	if isNil {
+		return "None"
+	}
+	return "(Some " + CoqBytes(common.Unhex(hexs)) + ")"
+}
+
+func runs(xs []string) string {
+	if len(xs) == 0 {
+		return "[]"
+	}
+	var parts []string
+	i := 0
+	for i < len(xs) {
+		j := i
+		for j < len(xs) && xs[j] == xs[i] {
+			j++
+		}
+		if j-i >= 4 {
+			parts = append(parts, fmt.Sprintf("repeat (%s) %d%%nat", xs[i], j-i))
+		} else {
+			s := "["
+			for k := i; k < j; k++ {
+				if k > i {
+					s += "; "
+				}
+				s += xs[k]
+			}
+			parts = append(parts, s+"]")
+		}
+		i = j
+	}
+	s := "("
+	for k, p := range parts {
+		if k > 0 {
+			s += " ++ "
+		}
+		s += p
+	}
+	return s + ")"
+}
+
+func CoqIn(in txgen.InSpec) string {
+	return fmt.Sprintf("mkInput %s %d %s %d %d %s", CoqBytes(common.Unhex(in.Txid)), in.Vout,
+		CoqBytes(common.Unhex(in.Unlock)), in.Seq, in.Sats, coqOptBytes(in.Prev, in.PrevNil))
+}
+func CoqIns(ins []txgen.InSpec) string {
+	var xs []string
+	for _, in := range ins {
+		xs = append(xs, CoqIn(in))
+	}
+	return runs(xs)
+}
+func CoqOuts(outs []txgen.OutSpec) string {
+	var xs []string
+	for _, o := range outs {
+		xs = append(xs, fmt.Sprintf("mkOutput %d %s", o.Sats, CoqBytes(common.Unhex(o.Script))))
+	}
+	return runs(xs)
+}
+
+// CoqTx: like txgen.Coq, with compact byte strings.
+func CoqTx(s txgen.TxSpec) string {
+	return fmt.Sprintf("(mkTx %d %s %s %d)", s.Version, CoqIns(s.Ins), CoqOuts(s.Outs), s.Lock)
+}
+
+// Fill returns n bytes: one repeated random byte (cheap to print) or, one time in eight, random bytes.
+func Fill(r *common.Rand, n int) []byte {
+	if r.Intn(8) == 0 {
+		return r.Bytes(n)
+	}
+	return Repeat(byte(r.U64()), n)
+}
+
+// InCheap: like In, built from Fill.
+func InCheap(r *common.Rand, sats uint64) txgen.InSpec {
+	return txgen.InSpec{Txid: common.Hex(Fill(r, 32)), Vout: uint32(r.Intn(4)), Seq: 0xffffffff, Sats: sats,
+		Prev: common.Hex(P2PKH(Fill(r, 20))), UnlockNil: true}
+}
